@@ -19,7 +19,7 @@ def pad (bs : List UInt8) : List UInt8 :=
   let l := bs.length
   let z := (119 - l % 64) % 64
   let bits := l * 8
-  bs ++ [0x80] ++ List.replicate z 0 ++
+  bs ++ [(0x80 : UInt8)] ++ List.replicate z (0 : UInt8) ++
     (List.range 8).map (fun i => UInt8.ofNat ((bits >>> (8 * (7 - i))) % 256))
 
 def word (a b c d : UInt8) : UInt32 :=
